@@ -11,7 +11,7 @@ ActTo(T, P, k) == IF k = 0 THEN PPhase(PId(NT(T)), P.ph)
                   ELSE PMul(ActTo(T, P, k - 1), PMul(PPow(T.imX[k], P.x[k]), PPow(T.imZ[k], P.z[k])))
 Act(T, P) == ActTo(T, P, NT(T))
 \* Compose(T, G)(P) = T(G(P))   (G first, then T)
-Compose(T, G) == [imX |-> [k \in 1..NT(T) |-> Act(T, G.imX[k])], imZ |-> [k \in 1..NT(T) |-> Act(T, G.imZ[k])]]
+Compose(T, G) == TLCEval([imX |-> [k \in 1..NT(T) |-> Act(T, G.imX[k])], imZ |-> [k \in 1..NT(T) |-> Act(T, G.imZ[k])]])
 \* a tableau is a valid automorphism iff the images are Hermitian and satisfy the canonical commutation relations
 ValidT(T) == LET n == NT(T) IN
    /\ \A k \in 1..n : PHerm(T.imX[k]) /\ PHerm(T.imZ[k])
